@@ -3,6 +3,7 @@ package rules
 import (
 	"go/ast"
 	"go/token"
+	"go/types"
 	"strings"
 
 	"verif/internal/core"
@@ -127,4 +128,168 @@ func c09DefaultRef(c *core.Ctx) {
 	c.Check(bad == nil && n > 0, "R-C09-6", cons+"|default reference compared only for rules without a policyRef", pos(c, cmps[0]),
 		sprintf("%d states at the comparison, all with an empty rule policyRef", n),
 		"the defaultPolicyRef of the two generations is compared for a rule that names its own policy: changing only the default resets the limiter of unchanged rules (up to twice limitForPeriod requests released in the running period)", witness(bad)...)
+}
+
+// R-C09-8: the equality the carry-over decision rests on compares CONFIGURATION only. The
+// functions reload asks "is this rule / its policy unchanged?" (URLRule.DeepEqual, the
+// two-generation policy comparison) must not compare whole struct values (==, !=,
+// reflect.DeepEqual) of a type that contains a field the code itself writes after decoding /
+// construction (a cache such as the compiled regular expression or the id that Init fills):
+// reload compares a freshly decoded rule with an initialised one, so such a comparison makes
+// every unchanged rule of that kind look changed and its limiter is reset on every reload.
+func c09Equality(c *core.Ctx) {
+	c.Rule("R-C09-8", "the equality functions the carry-over decision uses (URLRule.DeepEqual, the policy comparison) compare configuration fields only: no ==, != or reflect.DeepEqual on struct values whose type contains a field that the code assigns after decoding (caches filled by Init)")
+	const ur = "pkg/util/urlrule"
+	// derived fields: struct fields assigned by the code of the packages that declare them
+	derived := map[*types.Var]ast.Node{}
+	for _, rel := range []string{ur, c09flt} {
+		pkg := c.Prog.Pkg(rel)
+		if pkg == nil {
+			c.Errorf("anchor: package %s not loaded", rel)
+			return
+		}
+		for _, fd := range c09pkgFuncs(pkg) {
+			g := flow.NewFunc(pkg, fd)
+			ast.Inspect(fd.Body, func(n ast.Node) bool {
+				var targets []ast.Expr
+				switch s := n.(type) {
+				case *ast.AssignStmt:
+					targets = s.Lhs
+				case *ast.IncDecStmt:
+					targets = []ast.Expr{s.X}
+				}
+				for _, l := range targets {
+					if sel := c09storeTarget(l); sel != nil {
+						if v := c09fieldOf(g, sel); v != nil && derived[v] == nil {
+							derived[v] = n
+						}
+					}
+				}
+				return true
+			})
+		}
+	}
+	// firstDerived returns a derived field reachable in a value of type t by the comparison:
+	// == looks at the fields of nested structs / arrays (pointers are compared by address, so a
+	// derived pointer FIELD counts, what it points to does not); reflect.DeepEqual also follows
+	// pointers, slices and maps.
+	var firstDerived func(t types.Type, deep bool, seen map[types.Type]bool) *types.Var
+	firstDerived = func(t types.Type, deep bool, seen map[types.Type]bool) *types.Var {
+		if t == nil || seen[t] {
+			return nil
+		}
+		seen[t] = true
+		switch u := t.Underlying().(type) {
+		case *types.Struct:
+			for i := 0; i < u.NumFields(); i++ {
+				if derived[u.Field(i)] != nil {
+					return u.Field(i)
+				}
+				if v := firstDerived(u.Field(i).Type(), deep, seen); v != nil {
+					return v
+				}
+			}
+		case *types.Array:
+			return firstDerived(u.Elem(), deep, seen)
+		case *types.Pointer:
+			if deep {
+				return firstDerived(u.Elem(), deep, seen)
+			}
+		case *types.Slice:
+			if deep {
+				return firstDerived(u.Elem(), deep, seen)
+			}
+		case *types.Map:
+			if deep {
+				return firstDerived(u.Elem(), deep, seen)
+			}
+		}
+		return nil
+	}
+	// subjects
+	var subjects []*flow.Func
+	if f := fn(c, ur, "URLRule", "DeepEqual"); f != nil {
+		subjects = append(subjects, f)
+	}
+	polCmp := funcsByRole(c, c09flt, func(g *flow.Func, fd *ast.FuncDecl) bool {
+		if fd.Recv != nil || fd.Type.Results == nil || len(fd.Type.Results.List) != 1 {
+			return false
+		}
+		if tv, ok := g.Info.Types[fd.Type.Results.List[0].Type]; !ok || tv.Type.String() != "bool" {
+			return false
+		}
+		specs, strs := 0, 0
+		for _, p := range c09params(g) {
+			switch {
+			case strings.HasSuffix(p.Type().String(), "/"+c09flt+".Spec"):
+				specs++
+			case p.Type().String() == "string":
+				strs++
+			}
+		}
+		return specs == 2 && strs == 1
+	})
+	subjects = append(subjects, polCmp...)
+	if !c.RequireCount("R-C09-8", "equality functions used by the carry-over decision", len(subjects), 2) {
+		return
+	}
+	for _, f := range subjects {
+		fd := f.Node.(*ast.FuncDecl)
+		cons := declName(f.Pkg, fd) + "|compares configuration fields only"
+		var badAt ast.Node
+		why := ""
+		n := 0
+		for _, g := range reach(f, 2) {
+			ast.Inspect(g.Body, func(x ast.Node) bool {
+				if badAt != nil {
+					return false
+				}
+				switch e := x.(type) {
+				case *ast.BinaryExpr:
+					if e.Op != token.EQL && e.Op != token.NEQ {
+						return true
+					}
+					n++
+					tv, ok := g.Info.Types[e.X]
+					if !ok || tv.Type == nil {
+						return true
+					}
+					for _, side := range []ast.Expr{e.X, e.Y} {
+						if v := c09fieldOf(g, side); v != nil && derived[v] != nil && badAt == nil {
+							badAt = e
+							why = sprintf("the field `%s`, which the code fills after decoding (%s), takes part in the comparison", v.Name(), pos(c, derived[v]))
+						}
+					}
+					if badAt != nil {
+						return false
+					}
+					switch tv.Type.Underlying().(type) {
+					case *types.Struct, *types.Array:
+						if v := firstDerived(tv.Type, false, map[types.Type]bool{}); v != nil {
+							badAt = e
+							why = sprintf("values of type %s are compared as a whole (%s), and that type contains the field `%s`, which the code fills after decoding (%s)", types.TypeString(tv.Type, func(p *types.Package) string { return p.Name() }), e.Op, v.Name(), pos(c, derived[v]))
+						}
+					}
+				case *ast.CallExpr:
+					if fo, ok := g.Callee(e).(*types.Func); ok && fo.Pkg() != nil && fo.Pkg().Path() == "reflect" && fo.Name() == "DeepEqual" && len(e.Args) == 2 {
+						n++
+						if tv, ok := g.Info.Types[e.Args[0]]; ok && tv.Type != nil {
+							if v := firstDerived(tv.Type, true, map[types.Type]bool{}); v != nil {
+								badAt = e
+								why = sprintf("reflect.DeepEqual compares values of type %s, which contain the field `%s` that the code fills after decoding (%s)", types.TypeString(tv.Type, func(p *types.Package) string { return p.Name() }), v.Name(), pos(c, derived[v]))
+							}
+						}
+					}
+				}
+				return true
+			})
+		}
+		at := pos(c, f.Body)
+		if badAt != nil {
+			at = pos(c, badAt)
+		}
+		c.Check(badAt == nil, "R-C09-8", cons, at,
+			sprintf("%d comparison(s): none compares a struct value whose type holds a field written by the code", n),
+			why+": reload compares the freshly decoded rule of the new generation with the initialised rule of the previous one, so an unchanged rule never compares equal and gets a fresh limiter on every reload — the accumulated reservations are lost and up to twice limitForPeriod requests are released in the running period")
+	}
 }
